@@ -5,7 +5,7 @@ def spec(tier):
     th = tier == "thorough"
     obs = []
     R = 24 if th else 12
-    for n in ((2, 3, 4) if th else (2, 3)):
+    for n in (2, 3):
         for dur0 in (3, 1):
             sym = dict(cap=I(1, 2 * R))
             for i in range(n):
@@ -16,7 +16,6 @@ def spec(tier):
                 fixed[f"m{i}"] = 0
                 fixed[f"r{i}"] = 1
             if n >= 3:
-                # order the allocations of the last two to halve the symmetric cases; split by capacity range
                 for (lo, hi) in ((1, R // 2), (R // 2 + 1, R), (R + 1, 2 * R)):
                     s2 = dict(sym)
                     s2["cap"] = I(lo, hi)
@@ -24,6 +23,15 @@ def spec(tier):
                                   timeout=1800 if th else 900))
             else:
                 obs.append(CH(name=f"killer_n{n}_d{dur0}", harness="c11.oom_killer", sym=sym, fixed=fixed, timeout=900))
+    if th:
+        # four containers: allocations concrete per partition (with all eight sizes symbolic the cubic score
+        # comparisons make z3 answer unknown on some paths), memory demands and capacity symbolic
+        for ri, rs in enumerate(((10, 10, 10, 10), (5, 10, 20, 24), (24, 12, 6, 3), (8, 8, 16, 16), (3, 7, 11, 13))):
+            for dur0 in (3, 1):
+                for (lo, hi) in ((1, 16), (17, 32), (33, 48)):
+                    sym = dict(cap=I(lo, hi), m0=I(0, R), m1=I(0, R), m2=I(0, R), m3=I(0, R))
+                    fixed = dict(n=4, dur0=dur0, r0=rs[0], r1=rs[1], r2=rs[2], r3=rs[3])
+                    obs.append(CH(name=f"killer_n4_r{ri}_d{dur0}_cap{lo}", harness="c11.oom_killer", sym=sym, fixed=fixed, timeout=2400))
     tsym = dict(cap=I(1, 24), m0=I(0, 12), r0=I(1, 12), m1=I(0, 12), r1=I(1, 12), m2=I(0, 12), r2=I(1, 12))
     tfix = dict(n=3, dur0=3, m3=0, r3=1)
     for w in ("two_victims", "one_victim", "tie", "over_and_pool"):
@@ -32,7 +40,8 @@ def spec(tier):
         property_id="C11", obligations=obs,
         functions=["ResourcePool._run_out_of_memory_killer", "ResourcePool.run_one_tick", "Container.kill", "Container._mark_completed",
                    "Container.set_current_memory_usage"],
-        bounds={"containers": "2..4" if th else "2..3", "memory_and_allocation_gb": f"0..{R}", "capacity": f"1..{2*R}"},
+        bounds={"containers": "2..3 (all sizes symbolic)" + (" + 4 (five concrete allocation tuples, memory and capacity symbolic)" if th else ""),
+                "memory_and_allocation_gb": f"0..{R}", "capacity": f"1..{2*R}"},
         outside=["more than 4 containers", "non-integral sizes (scores of integral sizes differ by >= 1e-3 relative, far above binary64 rounding)",
                  "growing-memory profiles crossing capacity at fractional ticks (per-tick demand comes from C05's model)"],
         assumptions=A_ASSUME + ["scores are compared cross-multiplied (m_i^2 r_j > m_j^2 r_i) in the harness; the code's m*(m/r) runs under M1"],
